@@ -1,9 +1,9 @@
 (* Case decoding for the end-to-end codec groups of the correspondence check (see harness/src/codec.rs
    for the matching implementation side).  Definitions only. *)
-From Coq Require Import NArith List Bool.
+From Coq Require Import NArith List Bool FMapPositive.
 From RQ Require Import Base.Outcome Base.Ints Base.ListX Spec.Linear Spec.Layout Spec.Code Spec.Tuple Spec.Prime Spec.Tables_RFC
   Model.Octet Model.FieldFast Model.SysConst Model.Tuple Model.CMatrix Model.Layout Model.Slab
-  Model.Encoder Model.Decoder Model.CertRun.
+  Model.Encoder Model.Decoder Model.CertFast Model.CertRun.
 Import ListNotations.
 Open Scope N_scope.
 Open Scope outcome_scope.
@@ -238,4 +238,51 @@ Definition run_check_intermediate (a : list N) : list N :=
       [1; if forallb (fun rd => vec_eqb (lincomb fmul Tn (fst rd) C) (snd rd)) (combine A D)
              && Nat.eqb (length C) (N.to_nat (spL sp)) then 1 else 0]
   | _, _ => [0; 0]
+  end.
+
+(* ---- structure of the encoding constraint matrix for ANY block size, row by row (cheap: no solving) ----
+   [K, rows...] -> for each requested binary-matrix row index r: the number of ones and their columns (ascending).
+   LDPC rows (r < S) come from the sparse LDPC builder, G_ENC rows (r >= S+H, ISI r-S-H) from the tuple. *)
+Definition insert_sorted_N (x : N) (l : list N) : list N :=
+  (fix go l := match l with [] => [x] | y :: t => if x <? y then x :: y :: t else if x =? y then y :: t else y :: go t end) l.
+
+Definition run_cm_rows (m : mode) (a : list N) : list N :=
+  let K := argn a 0 in
+  let rows := skipn 1 a in
+  match sys_params K with
+  | Panic _ => [0; 0]
+  | Ok sp =>
+      let Kp := spK sp in let S := spS sp in let H := spH sp in let W := spW sp in
+      let P := spP sp in let L := spL sp in
+      match set_ldpc_s (S + H + Kp) L S (W - S) W P (PositiveMap.empty srow) with
+      | Panic _ => [0; 0]
+      | Ok ld =>
+          enc1l (r <- omapM (fun r =>
+                    if r <? S then
+                      let cols := map (fun kv => Pos.pred_N (fst kv)) (get_row ld r) in
+                      Ok (N.of_nat (length cols) :: cols)
+                    else if r <? S + H then Ok [0]
+                    else
+                      t <- intermediate_tuple_gen true m (r - S - H) W (spJ sp) (spP1 sp) ;;
+                      idx <- enc_indices m t W P (spP1 sp) ;;
+                      let cols := fold_right insert_sorted_N [] idx in
+                      Ok (N.of_nat (length cols) :: cols)) rows ;;
+                 Ok (concat r))
+      end
+  end.
+
+(* [K, T, data(K*T), C(L*T)] against the RFC snapshot: parameters from Spec/Tables_RFC.v, matrix A_rfc *)
+Definition run_check_intermediate_rfc (a : list N) : list N :=
+  let K := argn a 0 in let T := argn a 1 in
+  let Tn := N.to_nat T in
+  match spec_params K with
+  | None => [0; 0]
+  | Some p =>
+      let data := firstn (N.to_nat (K * T)) (skipn 2 a) in
+      let C := chunks T (skipn (2 + N.to_nat (K * T)) a) in
+      let D := repeat (repeat 0 Tn) (N.to_nat (cS p + cH p)) ++ chunks T data ++
+               repeat (repeat 0 Tn) (N.to_nat (cK p - K)) in
+      let A := A_rfc p (rangeN (N.to_nat (cK p))) in
+      [1; if Nat.eqb (length C) (N.to_nat (cL p)) &&
+             forallb (fun rd => vec_eqb (lincomb fmul Tn (fst rd) C) (snd rd)) (combine A D) then 1 else 0]
   end.
